@@ -1,6 +1,7 @@
 """C02 - round trip of safe dump / safe load (agreement and pairing clauses only)."""
 import sys
 
+from sa import rules_lang as RLNG
 from sa import crosslist as XL
 from sa import rules_r6b as R6B
 from sa import report, rules_repr as RR2, rules_emit as RE, rules_order as RO, rules_registry as RR
@@ -42,6 +43,8 @@ def run(ctx, repo):
     XL.construct_protocol(ctx, repo)
     XL.mapping_rules(ctx, repo)
     XL.compose_identity(ctx, repo)
+    ctx.call(RLNG.o_dump_subset_load, repo)
+    ctx.call(RLNG.o_ts_inclusion, repo)
 
 
 if __name__ == '__main__':
